@@ -460,39 +460,39 @@ def r11_2(prog, rep):
 
 
 def _reply_text(prog, rep, rid, r, SUCC, FAIL):
+    """With the verb fixed (constant propagation; switch or if-chain alike), the status line written agrees with it."""
     cfg = r.cfg
-    # find switch over ins.v; case SUCC must write the literal containing "2.0;Success", others must not
-    sw = [b for b in cfg.blocks.values() if b.term and b.term["kind"] == "switch"]
-    done = False
-    for blk in sw:
-        on = cfg.resolve(blk.term.get("on"))
-        if not lv(on).endswith(".v"):
-            continue
-        for si, s in enumerate(blk.succs):
-            if s is None:
-                continue
-            lab = cfg.blocks[s].label
-            texts = []
-            for i, e in enumerate(cfg.blocks[s].elems):
-                for c in calls(e["x"]):
-                    if c.get("fn") in ("fdwrite", "fdprintf"):
-                        t = str_value(prog, r, c["a"][0])
-                        if t:
-                            texts.append(t)
-            if lab and lab["k"] == "case" and lab.get("lo") == SUCC:
-                done = True
-                if any("2.0;Success" in t for t in texts) and not any("5." in t for t in texts):
-                    rep.ok(rid, "cmd_ical_rpl/SUCC-text", r.loc(lab.get("line")), "INSVERB_SUCC writes REQUEST-STATUS:2.0;Success")
-                else:
-                    rep.fail(rid, "cmd_ical_rpl/SUCC-text", r.loc(lab.get("line")), "INSVERB_SUCC writes %s" % texts)
-            elif lab and (lab["k"] == "default" or (lab["k"] == "case" and lab.get("lo") == FAIL)):
-                if texts and any("Success" in t for t in texts):
-                    rep.fail(rid, "cmd_ical_rpl/FAIL-text", r.loc(lab.get("line")), "a failure verb writes a success status: %s" % texts)
-                elif texts:
-                    rep.ok(rid, "cmd_ical_rpl/FAIL-text", r.loc(lab.get("line")), "failure verbs write a 5.x status")
-    if not done:
-        rep.fail(rid, "cmd_ical_rpl/SUCC-text", r.loc(), "no switch case for INSVERB_SUCC found in cmd_ical_rpl")
+    discr = None
+    for b_, i_, x_, ln_ in cfg.all_elems():
+        for n in walk(cfg.resolve(x_)):
+            if n.get("k") == "mem" and n.get("f") == "v" and "instruc" in (n.get("rec") or ""):
+                discr = lv(n)
+    if discr is None:
+        rep.fail(rid, "cmd_ical_rpl/SUCC-text", r.loc(), "cmd_ical_rpl never looks at the verb of the instruction")
+        return
 
+    def texts_for(val):
+        out = []
+
+        def effect(b, i, x, store, _o=out):
+            if isinstance(x, dict) and x.get("k") == "call" and x.get("fn") in ("fdwrite", "fdprintf"):
+                t = str_value(prog, r, x["a"][0])
+                if t and "REQUEST-STATUS" in t:
+                    _o.append(t)
+            return None
+        AbsWalk(r, {discr}, init={discr: val}, effect=effect).run()
+        return out
+    st = texts_for(SUCC)
+    if st and all("2.0;Success" in t for t in st) and not any(":5." in t or ";5." in t for t in st):
+        rep.ok(rid, "cmd_ical_rpl/SUCC-text", r.loc(), "with %s == INSVERB_SUCC the status written is REQUEST-STATUS:2.0;Success" % discr)
+    else:
+        rep.fail(rid, "cmd_ical_rpl/SUCC-text", r.loc(), "with %s == INSVERB_SUCC the status lines written are %s" % (discr, st or "none"))
+    for nm, val in (("INSVERB_FAIL", FAIL), ("any other verb", 97)):
+        ft = texts_for(val)
+        if any("Success" in t for t in ft):
+            rep.fail(rid, "cmd_ical_rpl/FAIL-text", r.loc(), "a failure verb (%s) writes a success status: %s" % (nm, ft))
+            return
+    rep.ok(rid, "cmd_ical_rpl/FAIL-text", r.loc(), "failure verbs never write a success status")
 
 def r11_3(prog, rep):
     rid = "R11.3"
